@@ -244,6 +244,7 @@ def checkBgHistory (c : AppCfg) (tempPrefix : Path) (sizeLimit : Option Nat := n
   | s, (op, o) :: rest =>
     let r := c.roller
     if o.res = "PANIC" then some ("append panicked", "C08/panic")
+    else if o.res = "HANG" then some ("append never returned (the roll waits for a rotation thread that died)", "C08/background-hang")
     else if o.res = "TIMEOUT" then some ("background rotation never finished", "C08/background-hang")
     else match op with
     | .restart =>
